@@ -393,6 +393,18 @@ pub fn generate(rng: &mut Rng, shape: &Shape) -> Program {
                 text = format!("{r} {base}({args});");
             }
             DKind::Var => {
+                // an initialised constant whose declared type is a typedef of an integer type: the binding is a
+                // `pub const V: T = k;`, and the only path to `T` is the variable's type
+                let int_typedefs: Vec<usize> = p.decls.iter().enumerate().filter(|(_, d)| d.kind == DKind::Typedef
+                    && BUILTINS.iter().any(|b| *b != "double" && *b != "float" && d.text == format!("typedef {b} {};", d.base))).map(|(i, _)| i).collect();
+                if !int_typedefs.is_empty() && rng.chance(1, 3) {
+                    let t = *rng.pick(&int_typedefs);
+                    deps.insert(t);
+                    text = format!("static const {} {base} = {};", p.type_ref(t), rng.below(100));
+                    deps.remove(&k);
+                    p.decls.push(Decl { base, kind, ns, file, deps, text, variants, c_ref });
+                    continue;
+                }
                 let t = pick_type(&p, rng, &mut deps, true);
                 if rng.chance(1, 3) && !t.contains('*') && !t.contains('<') && BUILTINS.contains(&t.as_str()) && t != "double" && t != "float" {
                     text = format!("static const {t} {base} = {};", rng.below(100));
